@@ -363,6 +363,7 @@ func mergedHeadsDeps(c *Ctx, r *Report, rule string, join *Fn) {
 			return false
 		}
 		nscan := 0
+		var scans []*ssa.Call
 		for x := range bs {
 			call, ok := x.(*ssa.Call)
 			if !ok || call.Parent() != sf {
@@ -371,6 +372,10 @@ func mergedHeadsDeps(c *Ctx, r *Report, rule string, join *Fn) {
 			if f := calleeOf(call); f == nil || f.Name() != "FindHeads" || len(call.Call.Args) != 1 {
 				continue
 			}
+			scans = append(scans, call)
+		}
+		sort.Slice(scans, func(i, j int) bool { return scans[i].Pos() < scans[j].Pos() }) // ordinals follow the source order
+		for _, call := range scans {
 			nscan++
 			fromEntries := ""
 			for y := range backSlice(call.Call.Args[0], nil) {
